@@ -511,6 +511,41 @@ func (fr *Frame) tr(e ast.Expr, env *Env) Val {
 				return Val{fmt.Sprintf("(= (iftag %s) %d)", v.T, id), types.Typ[types.Bool]}
 			}
 			return Val{fmt.Sprintf("(%s %s)", acc, v.T), ty}
+		case "box":
+			v := fr.tr(x.Args[0], env)
+			return Val{c.boxTerm(v), types.NewInterfaceType(nil, nil)}
+		case "smhas", "smget":
+			sel, ok := x.Args[0].(*ast.SelectorExpr)
+			if !ok {
+				panic("smhas/smget: first argument must be a field selector of type sync.Map")
+			}
+			base := fr.tr(sel.X, env)
+			pt, ok := base.Typ.Underlying().(*types.Pointer)
+			if !ok {
+				panic("smhas/smget: owner must be a pointer")
+			}
+			n := pt.Elem().(*types.Named)
+			stt := n.Underlying().(*types.Struct)
+			fk := ""
+			for i := 0; i < stt.NumFields(); i++ {
+				if stt.Field(i).Name() == sel.Sel.Name && isSyncMap(stt.Field(i).Type()) {
+					fk, _ = c.heapKey(n, i)
+				}
+			}
+			if fk == "" {
+				panic("smhas/smget: " + sel.Sel.Name + " is not a sync.Map field")
+			}
+			_, _, dom, val := c.syncMapHeaps(env.st, fk)
+			k := fr.tr(x.Args[1], env)
+			kt := k.T
+			if c.sortOf(k.Typ) != "Iface" {
+				kt = c.boxTerm(k)
+			}
+			has := fmt.Sprintf("(select (select %s %s) %s)", dom, base.T, kt)
+			if fn.Name == "smhas" {
+				return Val{has, types.Typ[types.Bool]}
+			}
+			return Val{fmt.Sprintf("(ite %s (select (select %s %s) %s) ifnil)", has, val, base.T, kt), types.NewInterfaceType(nil, nil)}
 		case "allocated":
 			v := fr.tr(x.Args[0], env)
 			return Val{fmt.Sprintf("(<= %s %s)", v.T, fr.allocTerm(env.st)), types.Typ[types.Bool]}
@@ -616,6 +651,13 @@ func (fr *Frame) selectField(base Val, name string, env *Env) Val {
 				return Val{fmt.Sprintf("(select %s %s)", arr, base.T), ft}
 			}
 		}
+		for i := 0; i < st.NumFields(); i++ {
+			if st.Field(i).Embedded() && hasFieldDeep(st.Field(i).Type(), name) {
+				key, ft := c.heapKey(n, i)
+				arr := c.heapGet(env.st, key, ft)
+				return fr.selectField(Val{fmt.Sprintf("(select %s %s)", arr, base.T), ft}, name, env)
+			}
+		}
 		panic("no field " + name)
 	}
 	if st, ok := t.Underlying().(*types.Struct); ok {
@@ -625,8 +667,32 @@ func (fr *Frame) selectField(base Val, name string, env *Env) Val {
 				return Val{tt, ty}
 			}
 		}
+		// promoted field of an embedded struct
+		for i := 0; i < st.NumFields(); i++ {
+			if st.Field(i).Embedded() {
+				if _, ok := st.Field(i).Type().Underlying().(*types.Struct); ok {
+					tt, ty := c.pathGet(base.T, t, []int{i})
+					if hasFieldDeep(ty, name) {
+						return fr.selectField(Val{tt, ty}, name, env)
+					}
+				}
+			}
+		}
 	}
 	panic(fmt.Sprintf("cannot select %s on %v", name, t))
+}
+
+func hasFieldDeep(t types.Type, name string) bool {
+	st, ok := t.Underlying().(*types.Struct)
+	if !ok {
+		return false
+	}
+	for i := 0; i < st.NumFields(); i++ {
+		if st.Field(i).Name() == name || (st.Field(i).Embedded() && hasFieldDeep(st.Field(i).Type(), name)) {
+			return true
+		}
+	}
+	return false
 }
 
 var _ = ssa.NaiveForm
